@@ -2,6 +2,7 @@
 //! libFuzzer targets in /verif/fuzz can call the same oracles.
 #![allow(dead_code)]
 pub mod engine;
+pub mod fuzzing;
 pub mod model;
 pub mod probes;
 pub mod props;
